@@ -647,5 +647,5 @@ func TestVerif_C41_proc(t *testing.T) {
 	defer rec.Write(t)
 	base, cleanup := vh.ScratchDir(t, "c41p-")
 	defer cleanup()
-	vh.Check(t, "processes", 6, 25, func(rt *rapid.T) { c41Case(rt, rec, base, true) })
+	vh.Check(t, "processes", 6, 12, func(rt *rapid.T) { c41Case(rt, rec, base, true) })
 }
